@@ -35,6 +35,12 @@ class Gen:
         return f"{b}{self.lbl}"
 
     def emit(self, s, tag=None, indent=True):
+        # a jump may also be written as a branch whose condition always holds
+        if tag == "jump" and s.startswith("j ") and self.shapes and self.rng.random() < 0.25:
+            lab = s[2:].strip()
+            s = self.rng.choice([f"beq zero, zero, {lab}", f"beqz zero, {lab}", f"bge zero, zero, {lab}",
+                                 f"bgeu x0, x0, {lab}", f"b {lab}", f"jal zero, {lab}"])
+            self.stats["always_taken_branch_as_jump"] = self.stats.get("always_taken_branch_as_jump", 0) + 1
         self.lines.append((("    " if indent else "") + s, tag))
 
     # ---- statements --------------------------------------------------------------------
@@ -308,11 +314,36 @@ class Gen:
             self.emit(f"li a0, {r.choice([0, 1])}", "set-result")
         self.emit("ret", "ret")
 
+    def outloop(self, f):
+        """a loop whose body is placed out of line, after the function's `ret`; the body's last
+        instruction jumps back to the loop head and is the last line of the function"""
+        r = self.rng
+        self.stats["functions"] += 1
+        self.stats["loops"] += 1
+        self.stats["outloop"] = self.stats.get("outloop", 0) + 1
+        head, body = self.fresh("ohead"), self.fresh("obody")
+        c, acc = r.sample(TEMPS, 2)
+        self.emit(f"{f.name}:", None, indent=False)
+        self.emit(f"mv {c}, a0", "copy-arg")
+        self.emit(f"li {acc}, {r.choice([0, 1])}", "li-temp")
+        for i in range(1, f.nargs):             # every argument the callers pass is read
+            self.emit(f"add {acc}, {acc}, a{i}", "arith")
+        self.emit(f"{head}:", None, indent=False)
+        self.emit(f"{r.choice(['bnez', 'bgtz'])} {c}, {body}", "branch")
+        self.emit(f"mv a0, {acc}", "set-result")
+        self.emit("ret", "ret")
+        self.emit(f"{body}:", None, indent=False)
+        self.emit(f"{r.choice(OPS)} {acc}, {acc}, {c}", "arith")
+        self.emit(f"addi {c}, {c}, -1", "arith")
+        self.emit(f"j {head}", "jump")
+
     def any_function(self, f, callees):
         r = self.rng
         k = r.random() if self.shapes else 1.0
         if k < 0.15:
             return self.leaf(f)
+        if 0.40 <= k < 0.50 and f.nargs >= 1:
+            return self.outloop(f)
         if k < 0.32 and f.nargs == 2:
             return self.entryloop(f)
         if k < 0.23:
